@@ -217,3 +217,65 @@ func reqIDOfName(v ssa.Value, method string, pred func(ssa.Value) bool) bool {
 	}
 	return pred(callArgs(ci)[0])
 }
+
+// checkDrainCoversLive: getPendingUpdates retrieves the pending update of every pending container that is created or
+// running — only the container named by `skip` (the one being created, served by the adjustment) is passed over.
+// Decided per state: with every comparison of the container's state evaluated for Created, resp. Running, no
+// iteration ends without the GetPendingUpdate call.
+func checkDrainCoversLive(e *Engine, r *Report) {
+	rule := "reply discipline"
+	fn := r.Anchor(pkgRM, "nriPlugin.getPendingUpdates")
+	if fn == nil {
+		return
+	}
+	loops := sliceLoops(fn)
+	nL := 0
+	for _, lp := range loops {
+		lp := lp
+		drains := func(in ssa.Instruction) bool {
+			c, ok := in.(ssa.CallInstruction)
+			return ok && callObj(c.Common()) != nil && callObj(c.Common()).Name() == "GetPendingUpdate" && lp.elem(callArgs(c)[0])
+		}
+		has := false
+		AllInstrs(fn, func(in ssa.Instruction) {
+			if drains(in) {
+				has = true
+			}
+		})
+		if !has {
+			continue
+		}
+		nL++
+		for _, st := range []string{"ContainerStateCreated", "ContainerStateRunning"} {
+			k, _ := e.TypesPkg(pkgCA).Scope().Lookup(st).(*types.Const)
+			if k == nil {
+				r.Undecided("R1:drain-covers-live#"+st, rule, "constant "+st+" exists", "-", nil, "not found")
+				continue
+			}
+			asm := func(cond ssa.Value) (bool, bool) {
+				b, ok := cond.(*ssa.BinOp)
+				if !ok || (b.Op != token.EQL && b.Op != token.NEQ) {
+					return false, false
+				}
+				// the skip test: this is not the container being created
+				for _, pr := range [][2]ssa.Value{{b.X, b.Y}, {b.Y, b.X}} {
+					if c, ok := unspill(pr[0]).(ssa.CallInstruction); ok && callObj(c.Common()) != nil && callObj(c.Common()).Name() == "GetID" && lp.elem(callArgs(c)[0]) {
+						if c2, ok := unspill(pr[1]).(ssa.CallInstruction); ok && callObj(c2.Common()) != nil && callObj(c2.Common()).Name() == "GetId" {
+							return true, b.Op == token.NEQ
+						}
+					}
+					// state comparisons
+					if c, ok := unspill(pr[0]).(ssa.CallInstruction); ok && callObj(c.Common()) != nil && callObj(c.Common()).Name() == "GetState" && lp.elem(callArgs(c)[0]) {
+						if kk, isK := pr[1].(*ssa.Const); isK && kk.Value != nil && types.Identical(kk.Type(), k.Type()) {
+							return true, isConstEq(pr[1], k) == (b.Op == token.EQL)
+						}
+					}
+				}
+				return false, false
+			}
+			p := lp.skips(asm, drains, true)
+			r.Check("R1:drain-covers-live#"+st, rule, "getPendingUpdates retrieves the pending update of every pending container in state "+st[len("ContainerState"):]+" other than the one being created", e.InstrPos(lp.start), fn, p == nil, e.pathString(p), true)
+		}
+	}
+	r.MinInstances("drain loop in getPendingUpdates", nL, 1)
+}
